@@ -23,7 +23,8 @@ RULE = ('every DAG shape (Config / Partial / positional-argument Config, '
         'to Config/Partial/ArgFactory} x every sequence of edits up to a '
         'length on the copy (set/del argument, index assignment, add/remove/'
         'clear/set tags, in-place mutation of a nested list, edit of a nested '
-        'Buildable); distinct by (shape, tags variant, copy op, edit '
+        'Buildable); a variant whose leaf is the NO_VALUE sentinel stored as an '
+        'argument value; distinct by (shape, tags variant, copy op, edit '
         'sequence); non-trivial when the shape has a nested mutable value')
 ASSUMPTIONS = [
     'a twin configuration materialised independently from the same shape '
